@@ -328,4 +328,368 @@ Section CRun.
       + destruct S as (st & _ & Hnc & Hr & _). lia.
       + destruct S as (_ & _ & Hr & _). lia.
   Qed.
+
+  (* ---- the snapshot populates an empty cache *)
+  Lemma snap_populate : forall c l pa Q,
+    none_vals c -> unc_none (p_unc pc) (k_val c) -> snap_rel (PSnap l) pa Q ->
+    let c1 := update_cache (p_unc pc) c l [] in
+    unc_none (p_unc pc) (k_val c1) /\ q_ok Q = true /\ veq (vpend pc (k_val c1) pa) (q_val Q).
+  Proof.
+    intros c l pa Q Hn Hu [Hok Hv] c1. split; [apply update_cache_unc; exact Hu|]. split; [exact Hok|].
+    intro q. rewrite <- (Hv q). apply vpend_ext. intro r. subst c1. rewrite update_cache_val by exact Hu.
+    apply upd_val_ext. exact Hn.
+  Qed.
+
+  Lemma vpend_cons_msg : forall c t m l Q,
+    unc_none (p_unc pc) (k_val c) -> veq (vpend pc (k_val c) ((t, m) :: l)) (q_val Q) ->
+    veq (vpend pc (k_val (apply_msg pc c m)) l) (q_val Q).
+  Proof.
+    intros c t m l Q Hu Hv q. rewrite <- (Hv q). cbn [vpend fold_left snd]. apply vpend_ext. apply apply_msg_val. exact Hu.
+  Qed.
+
+  Lemma base_set_ph : forall (w : world) ph pre,
+    Base cf h (w_todo w) (w_seq w) (w_reps w) (ncalls w) pre ->
+    Base cf h (w_todo (set_ph w ph)) (w_seq (set_ph w ph)) (w_reps (set_ph w ph)) (ncalls (set_ph w ph)) pre.
+  Proof. intros. exact H. Qed.
+
+  (* the end of init: the reply [p] was yielded by the join, [j'] may hold a later update *)
+  Lemma finish_init : forall x pre st1 p pa j' pa',
+    Base cf h (w_todo (cw x)) (w_seq (cw x)) (w_reps (cw x)) (ncalls (cw x)) pre ->
+    unc_none (p_unc pc) (k_val (c_cache x)) -> none_vals (c_cache x) ->
+    ncalls (cw x) = G -> w_reps (cw x) = G ->
+    ss_ok (w_seq (cw x)) st1 -> qn_ok st1 -> ss_end st1 = sp_owner (sp_run cf pre) ->
+    snap_rel p pa (spec_state pc pre) -> ss_pend st1 = pa' ->
+    ((j' = JNone /\ pa' = pa) \/ (exists t m, j' = JA (CLeft m) t /\ pa = (t, m) :: pa')) ->
+    CInv match p with
+         | PSnap l =>
+             let c1 := update_cache (p_unc pc) (c_cache x) l [] in
+             let c2 := match j' with JA (CLeft m) _ => apply_msg pc c1 m | _ => c1 end in
+             {| cw := with_stream x st1; c_stage := SKeep; c_cache := c2; c_ready := Some true; c_seen := c_seen x |}
+         | _ => {| cw := with_stream x st1; c_stage := SFailed; c_cache := c_cache x; c_ready := Some false;
+                   c_seen := c_seen x |}
+         end.
+  Proof.
+    intros x pre st1 p pa j' pa' B Hu Hnv Hnc Hr Hok Hq He Hsr Hp Hj.
+    assert (Hfail : snap_rel p pa (spec_state pc pre) -> (forall l, p <> PSnap l) ->
+              CInv {| cw := with_stream x st1; c_stage := SFailed; c_cache := c_cache x; c_ready := Some false;
+                      c_seen := c_seen x |}).
+    { intros Hs Hnp. exists pre. unfold SInv. cbn [cw c_stage c_cache c_ready with_stream].
+      split; [apply base_set_ph; exact B|]. split; [exact Hu|].
+      split; [exact Hnv|]. split; [reflexivity|].
+      split; [change (w_reps (with_stream x st1)) with (w_reps (cw x)); change (ncalls (with_stream x st1)) with (ncalls (cw x)); lia|].
+      unfold snap_rel in Hs. destruct p; try exact Hs. exfalso. eapply Hnp. reflexivity. }
+    destruct p as [|o|l|]; try (apply Hfail; [exact Hsr|intros l E; discriminate]).
+    destruct (snap_populate (c_cache x) l pa _ Hnv Hu Hsr) as (Hu1 & Hqk & Hv1).
+    exists pre. unfold SInv. cbn [cw c_stage c_cache c_ready with_stream].
+    split; [apply base_set_ph; exact B|].
+    destruct Hj as [[-> ->]|(t & m & -> & ->)].
+    - split; [exact Hu1|]. exists st1. cbn [w_ph set_ph].
+      change (ncalls (set_ph (cw x) (PhReady st1))) with (ncalls (cw x)).
+      repeat (split; [first [assumption|reflexivity]|]). rewrite Hp. exact Hv1.
+    - split; [apply apply_msg_unc; exact Hu1|]. exists st1. cbn [w_ph set_ph].
+      change (ncalls (set_ph (cw x) (PhReady st1))) with (ncalls (cw x)).
+      repeat (split; [first [assumption|reflexivity]|]). rewrite Hp. eapply vpend_cons_msg; [exact Hu1|exact Hv1].
+  Qed.
+
+  Lemma qn_ok_iff : forall st st', (ss_qn st' = None <-> ss_qn st = None) -> qn_ok st -> qn_ok st'.
+  Proof. intros st st' H. unfold qn_ok. destruct (p_dest pc); tauto. Qed.
+
+  (* where the head of the pending updates lies relative to the reply *)
+  Lemma split_head_le : forall (pb pa : queue sigm) tr t m l,
+    pb ++ pa = (t, m) :: l -> all_lt tr pb -> all_gt tr pa -> t <= tr ->
+    exists pb', pb = (t, m) :: pb' /\ l = pb' ++ pa.
+  Proof.
+    intros pb pa tr t m l E Hb Ha Hle. destruct pb as [|e pb'].
+    - cbn in E. subst pa. inversion Ha as [|? ? Hx _]; subst. cbn in Hx. lia.
+    - cbn in E. inversion E; subst. eauto.
+  Qed.
+
+  Lemma split_head_gt : forall (pb pa : queue sigm) tr t m l,
+    pb ++ pa = (t, m) :: l -> all_lt tr pb -> all_gt tr pa -> tr < t ->
+    pb = [] /\ pa = (t, m) :: l.
+  Proof.
+    intros pb pa tr t m l E Hb Ha Hlt. destruct pb as [|e pb'].
+    - cbn in E. split; [reflexivity|exact E].
+    - cbn in E. inversion E; subst. inversion Hb as [|? ? Hx _]; subst. cbn in Hx. lia.
+  Qed.
+
+  (* ---- the caching task makes a step *)
+  Lemma task_inv : forall x, CInv x -> w_lost (cw (task_step pc x)) = false -> CInv (task_step pc x).
+  Proof.
+    intros x (pre & B & Hu & S) Hlost. unfold task_step in *. unfold SInv in S.
+    destruct (c_stage x) as [|c j fut| |] eqn:Estage.
+    - (* the stream is being created *)
+      destruct S as (P & Hnv & Hrd). fold cf in Hlost |- *.
+      destruct (w_ph (cw x)) as [|c qr|c j qn fut|c src qn qr|st| |] eqn:Eph.
+      all: try (
+        assert (HC : CInv1 cf h (client_step cf (cw x)) pre)
+          by (apply (client_pinv cf h Hown Hcon); [split; assumption|exact Hlost]);
+        destruct HC as [B' P']; exists pre; unfold SInv; cbn [cw set_cw c_stage c_cache c_ready]; rewrite Estage;
+        split; [exact B'|]; split; [exact Hu|]; split; [exact P'|]; split; assumption).
+      + (* the stream exists: GetAll *)
+        unfold PInv in P. rewrite Eph in P. destruct P as (Hr & Hn & Hok & _ & Hq & _ & He).
+        exists pre. unfold SInv. cbn [cw c_stage c_cache c_ready call w_todo w_seq w_reps w_ph].
+        rewrite !ncalls_call.
+        split; [eapply Base_calls; [|exact B]; lia|]. split; [exact Hu|].
+        exists st. split; [reflexivity|]. change (c_dest cf) with (p_dest pc) in Hn.
+        split; [unfold G; lia|]. split; [unfold G; lia|]. split; [exact Hok|]. split; [exact Hq|].
+        split; [exact He|]. split; [exact Hnv|]. split; [exact Hrd|]. left. repeat split; [lia].
+      + (* the creation failed *)
+        unfold PInv in P. rewrite Eph in P. destruct P as (_ & Hr & Hn).
+        exists pre. unfold SInv. cbn [cw c_stage c_cache c_ready]. split; [exact B|]. split; [exact Hu|].
+        split; [exact Hnv|]. split; [reflexivity|]. split; [exact Hr|].
+        apply q_before. fold cf. rewrite (b_reps _ _ _ _ _ _ _ B), <- G_getall. unfold G.
+        change (c_dest cf) with (p_dest pc) in Hn. lia.
+      + unfold PInv in P. rewrite Eph in P. contradiction.
+    - (* init: the join of the updates and the GetAll reply *)
+      destruct S as (st & Eph & Hc & Hnc & Hok & Hq & He & Hnv & Hrd & Hcase). subst c. rewrite Eph in *.
+      destruct Hcase as [(Hr & Hj & Hf)|(Hr & tr & p & pb & pa & Hjf & Hpend & Hb & Hga & Htr & Hsr)].
+      + (* the reply has not arrived: discard *)
+        subst j fut. rewrite init_poll_waiting.
+        destruct (ssp st None) as [r st1] eqn:Essp.
+        destruct (ssp_spec _ _ _ _ _ Hok Essp) as (Hok1 & Hqn1 & Hps & He1).
+        assert (Hstay : CInv {| cw := with_stream x st1; c_stage := SInit G JNone (Some []); c_cache := c_cache x;
+                                c_ready := c_ready x; c_seen := c_seen x |}).
+        { exists pre. unfold SInv. cbn [cw c_stage c_cache c_ready with_stream].
+          split; [apply base_set_ph; exact B|]. split; [exact Hu|]. exists st1. cbn [w_ph set_ph].
+          change (ncalls (set_ph (cw x) (PhReady st1))) with (ncalls (cw x)).
+          split; [reflexivity|]. split; [reflexivity|]. split; [exact Hnc|]. split; [exact Hok1|].
+          split; [exact (qn_ok_iff _ _ Hqn1 Hq)|]. split; [rewrite He1; exact He|]. split; [exact Hnv|].
+          split; [exact Hrd|]. left. repeat split; assumption. }
+        destruct r as [m t| | |]; cbn [pspec] in Hps; try exact Hstay. contradiction.
+      + (* the reply has arrived *)
+        assert (Hdiscard : forall st1,
+                   ss_ok (w_seq (cw x)) st1 -> (ss_qn st1 = None <-> ss_qn st = None) -> ss_end st1 = ss_end st ->
+                   forall t m, ss_pend st = (t, m) :: ss_pend st1 -> t <= tr ->
+                   CInv {| cw := with_stream x st1; c_stage := SInit G (JB (CRight p) tr) None; c_cache := c_cache x;
+                           c_ready := c_ready x; c_seen := c_seen x |}).
+        { intros st1 Hok1 Hqn1 He1 t m Hp1 Hle.
+          rewrite Hpend in Hp1. destruct (split_head_le _ _ _ _ _ _ Hp1 Hb Hga Hle) as (pb' & -> & Hl).
+          exists pre. unfold SInv. cbn [cw c_stage c_cache c_ready with_stream].
+          split; [apply base_set_ph; exact B|]. split; [exact Hu|]. exists st1. cbn [w_ph set_ph].
+          change (ncalls (set_ph (cw x) (PhReady st1))) with (ncalls (cw x)).
+          split; [reflexivity|]. split; [reflexivity|]. split; [exact Hnc|]. split; [exact Hok1|].
+          split; [exact (qn_ok_iff _ _ Hqn1 Hq)|]. split; [rewrite He1; exact He|]. split; [exact Hnv|].
+          split; [exact Hrd|]. right. split; [exact Hr|]. exists tr, p, pb', pa.
+          split; [right; split; reflexivity|]. split; [exact Hl|]. split; [inversion Hb; assumption|].
+          split; [exact Hga|]. split; [exact Htr|exact Hsr]. }
+        assert (Hfinish : forall st1 j' pa',
+                   ss_ok (w_seq (cw x)) st1 -> (ss_qn st1 = None <-> ss_qn st = None) -> ss_end st1 = ss_end st ->
+                   ss_pend st1 = pa' ->
+                   ((j' = JNone /\ pa' = pa) \/ (exists t m, j' = JA (CLeft m) t /\ pa = (t, m) :: pa')) ->
+                   CInv match p with
+                        | PSnap l =>
+                            let c1 := update_cache (p_unc pc) (c_cache x) l [] in
+                            let c2 := match j' with JA (CLeft m) _ => apply_msg pc c1 m | _ => c1 end in
+                            {| cw := with_stream x st1; c_stage := SKeep; c_cache := c2; c_ready := Some true;
+                               c_seen := c_seen x |}
+                        | _ => {| cw := with_stream x st1; c_stage := SFailed; c_cache := c_cache x;
+                                  c_ready := Some false; c_seen := c_seen x |}
+                        end).
+        { intros st1 j' pa' Hok1 Hqn1 He1 Hp1 Hj'.
+          apply (finish_init x pre st1 p pa j' pa' B Hu Hnv Hnc Hr Hok1 (qn_ok_iff _ _ Hqn1 Hq)); auto.
+          rewrite He1. exact He. }
+        destruct Hjf as [(Hj & Hf)|(Hj & Hf)]; subst j fut.
+        * (* the reply is still in its future *)
+          destruct (ssp st None) as [r st1] eqn:Essp.
+          destruct (ssp_spec _ _ _ _ _ Hok Essp) as (Hok1 & Hqn1 & Hps & He1).
+          destruct r as [m t| | |]; cbn [pspec] in Hps.
+          -- rewrite (init_poll_reply_item _ _ _ _ _ _ _ Essp).
+             destruct (t <=? tr) eqn:Ecmp.
+             ++ apply N.leb_le in Ecmp. exact (Hdiscard st1 Hok1 Hqn1 He1 t m Hps Ecmp).
+             ++ apply N.leb_gt in Ecmp. rewrite Hpend in Hps.
+                destruct (split_head_gt _ _ _ _ _ _ Hps Hb Hga Ecmp) as [-> Hpa].
+                specialize (Hfinish st1 (JA (CLeft m) t) (ss_pend st1) Hok1 Hqn1 He1 eq_refl
+                              (or_intror (ex_intro _ t (ex_intro _ m (conj eq_refl Hpa))))).
+                destruct p; exact Hfinish.
+          -- destruct Hps as (_ & Hp0 & Hp1).
+             rewrite (init_poll_reply_pending _ _ _ _ _ Essp).
+             destruct (ssp st1 (Some tr)) as [r2 st2] eqn:Essp2.
+             destruct (ssp_spec _ _ _ _ _ Hok1 Essp2) as (Hok2 & Hqn2 & Hps2 & He2).
+             rewrite Hp1 in Hps2.
+             destruct r2 as [m t| | |]; cbn [pspec] in Hps2.
+             ++ discriminate.
+             ++ destruct Hps2 as (Hx & _). discriminate.
+             ++ destruct Hps2 as (Hp2 & _).
+                assert (pb = [] /\ pa = []) as [-> ->].
+                { rewrite Hp0 in Hpend. destruct pb; [split; [reflexivity|]|discriminate]. cbn in Hpend. congruence. }
+                assert (Hqn' : ss_qn st2 = None <-> ss_qn st = None) by tauto.
+                assert (He' : ss_end st2 = ss_end st) by congruence.
+                specialize (Hfinish st2 JNone [] Hok2 Hqn' He' Hp2 (or_introl (conj eq_refl eq_refl))).
+                destruct p; exact Hfinish.
+             ++ contradiction.
+          -- destruct Hps as (_ & b & Hb0 & _). discriminate.
+          -- contradiction.
+        * (* the reply is buffered in the join *)
+          rewrite init_poll_buffered.
+          destruct (ssp st (Some tr)) as [r st1] eqn:Essp.
+          destruct (ssp_spec _ _ _ _ _ Hok Essp) as (Hok1 & Hqn1 & Hps & He1).
+          destruct r as [m t| | |]; cbn [pspec] in Hps.
+          -- destruct (t <=? tr) eqn:Ecmp.
+             ++ apply N.leb_le in Ecmp. exact (Hdiscard st1 Hok1 Hqn1 He1 t m Hps Ecmp).
+             ++ apply N.leb_gt in Ecmp. rewrite Hpend in Hps.
+                destruct (split_head_gt _ _ _ _ _ _ Hps Hb Hga Ecmp) as [-> Hpa].
+                specialize (Hfinish st1 (JA (CLeft m) t) (ss_pend st1) Hok1 Hqn1 He1 eq_refl
+                              (or_intror (ex_intro _ t (ex_intro _ m (conj eq_refl Hpa))))).
+                destruct p; exact Hfinish.
+          -- destruct Hps as (Hx & _). discriminate.
+          -- destruct Hps as (Hp1 & b & Hb0 & Hh). inversion Hb0; subst b.
+             assert (pb = []).
+             { destruct pb as [|[t0 m0] pb']; [reflexivity|]. rewrite Hpend in Hh.
+               specialize (Hh t0 m0 _ eq_refl). inversion Hb as [|? ? Hx _]; subst. cbn in Hx. lia. }
+             subst pb. cbn [app] in Hpend.
+             assert (Hp1' : ss_pend st1 = pa) by congruence.
+             specialize (Hfinish st1 JNone pa Hok1 Hqn1 He1 Hp1' (or_introl (conj eq_refl eq_refl))).
+             destruct p; exact Hfinish.
+          -- contradiction.
+    - (* keep_updated *)
+      destruct S as (st & Eph & Hnc & Hr & Hok & Hq & He & Hrd & Hqk & Hv). rewrite Eph.
+      destruct (ssp st None) as [r st1] eqn:Essp.
+      destruct (ssp_spec _ _ _ _ _ Hok Essp) as (Hok1 & Hqn1 & Hps & He1).
+      destruct r as [m t| | |]; cbn [pspec] in Hps.
+      + exists pre. unfold SInv. cbn [cw c_stage c_cache c_ready with_stream].
+        split; [apply base_set_ph; exact B|]. split; [apply apply_msg_unc; exact Hu|]. exists st1. cbn [w_ph set_ph].
+        change (ncalls (set_ph (cw x) (PhReady st1))) with (ncalls (cw x)).
+        split; [reflexivity|]. split; [exact Hnc|]. split; [exact Hr|]. split; [exact Hok1|].
+        split; [exact (qn_ok_iff _ _ Hqn1 Hq)|]. split; [rewrite He1; exact He|]. split; [exact Hrd|].
+        split; [exact Hqk|]. rewrite Hps in Hv. eapply vpend_cons_msg; [exact Hu|exact Hv].
+      + destruct Hps as (_ & Hp0 & Hp1).
+        exists pre. unfold SInv. cbn [cw set_cw c_stage c_cache c_ready with_stream]. rewrite Estage.
+        split; [apply base_set_ph; exact B|]. split; [exact Hu|]. exists st1. cbn [w_ph set_ph].
+        change (ncalls (set_ph (cw x) (PhReady st1))) with (ncalls (cw x)).
+        split; [reflexivity|]. split; [exact Hnc|]. split; [exact Hr|]. split; [exact Hok1|].
+        split; [exact (qn_ok_iff _ _ Hqn1 Hq)|]. split; [rewrite He1; exact He|]. split; [exact Hrd|].
+        split; [exact Hqk|]. rewrite Hp1. rewrite Hp0 in Hv. exact Hv.
+      + destruct Hps as (_ & b & Hb0 & _). discriminate.
+      + contradiction.
+    - (* failed: the task has ended *)
+      exists pre. unfold SInv. rewrite Estage. split; [exact B|]. split; [exact Hu|exact S].
+  Qed.
+
+  (* ---- the consumer: property streams only touch the listeners *)
+  Lemma cinv_same_vals : forall x c seen,
+    CInv x -> k_val c = k_val (c_cache x) ->
+    CInv {| cw := cw x; c_stage := c_stage x; c_cache := c; c_ready := c_ready x; c_seen := seen |}.
+  Proof.
+    intros x c seen (pre & B & Hu & S) Hk. exists pre. unfold SInv, none_vals in *.
+    cbn [cw c_stage c_cache c_ready]. rewrite Hk. split; [exact B|]. split; [exact Hu|exact S].
+  Qed.
+
+  Lemma add_stream_val : forall c p, k_val (add_stream c p) = k_val c.
+  Proof. intros c p. unfold add_stream. destruct (k_has c p); reflexivity. Qed.
+
+  Lemma cstep_inv : forall x a, CInv x -> w_lost (cw (cstep pc x a)) = false -> CInv (cstep pc x a).
+  Proof.
+    intros x a Hi Hl. destruct a as [| | |p]; cbn [cstep] in *.
+    - destruct (ctick pc x) as [x'|] eqn:E; [eapply ctick_inv; eassumption|exact Hi].
+    - apply task_inv; assumption.
+    - unfold with_cache. apply cinv_same_vals; [exact Hi|].
+      unfold STREAM_PROPS. cbn [fold_left]. rewrite !add_stream_val. reflexivity.
+    - unfold poll_stream. destruct (k_has (c_cache x) p && k_note (c_cache x) p); [|exact Hi].
+      apply cinv_same_vals; [exact Hi|reflexivity].
+  Qed.
+
+  Lemma cinit_inv : CInv (init_cworld h).
+  Proof.
+    exists []. split; [exact (Base_init cf h Hown Hcon)|]. split; [intros p _; reflexivity|].
+    unfold SInv. cbn. repeat split; reflexivity.
+  Qed.
 End CRun.
+
+(* the flag of C32's release class never goes back *)
+Lemma clost_mono : forall pc x a, w_lost (cw x) = true -> w_lost (cw (cstep pc x a)) = true.
+Proof.
+  intros pc x a H. destruct a as [| | |p]; cbn [cstep].
+  - unfold ctick. pose proof (lost_mono (scfg pc) (cw x) ATick H) as Ht. cbn [step] in Ht.
+    destruct (tick (scfg pc) (cw x)) as [w'|]; [|exact H].
+    destruct (w_todo (cw x)) as [|[s|q] r]; try exact Ht. destruct (c_stage x) as [|c j [qr|]| |]; exact Ht.
+  - unfold task_step. pose proof (lost_mono (scfg pc) (cw x) AClient H) as Hc. cbn [step] in Hc.
+    destruct (c_stage x) as [|c j fut| |]; try exact H.
+    + destruct (w_ph (cw x)); try exact Hc; exact H.
+    + destruct (w_ph (cw x)); try exact H.
+      destruct (init_poll c j st fut) as [[[r j'] st'] fut'].
+      destruct r as [[m|q] t| | |]; try exact H. destruct q; exact H.
+    + destruct (w_ph (cw x)); try exact H. destruct (ssp st None) as [[m t| | |] st']; exact H.
+  - exact H.
+  - unfold poll_stream. destruct (k_has (c_cache x) p && k_note (c_cache x) p); exact H.
+Qed.
+
+Lemma crun_lost : forall pc sched x, w_lost (cw x) = true -> w_lost (cw (fold_left (cstep pc) sched x)) = true.
+Proof.
+  induction sched as [|a sched IH]; intros x H; [exact H|]. cbn [fold_left]. apply IH. apply clost_mono. exact H.
+Qed.
+
+Lemma crun_inv : forall pc h,
+  stamped h = true ->
+  (c_dest (scfg pc) = DWell -> owners_ok_from 0 h = true) ->
+  (c_dest (scfg pc) = DWell -> consistent_from 0 None h = true) ->
+  forall sched x, CInv pc h x -> w_lost (cw (fold_left (cstep pc) sched x)) = false ->
+  CInv pc h (fold_left (cstep pc) sched x).
+Proof.
+  intros pc h Hst Hown Hcon. induction sched as [|a sched IH]; intros x Hi Hl; [exact Hi|].
+  cbn [fold_left] in *. apply IH; [|exact Hl]. apply cstep_inv; try assumption.
+  destruct (w_lost (cw (cstep pc x a))) eqn:E; [|reflexivity].
+  rewrite (crun_lost pc sched _ E) in Hl. discriminate.
+Qed.
+
+(* ---------------------------------------------------------------- the theorems *)
+Theorem cache_partial : forall pc h sched,
+  bus_history (scfg pc) h = true ->
+  let x := crun pc h sched in
+  w_lost (cw x) = false ->
+  (c_ready x <> Some true -> forall p, cached x p = None) /\
+  (caught_up x -> forall p, cached x p = spec_cache pc (received x h) p) /\
+  (c_ready x = Some true -> spec_ready pc (received x h) = Some true).
+Proof.
+  intros pc h sched Hb x Hl.
+  unfold bus_history in Hb. apply andb_true_iff in Hb. destruct Hb as [Hst Hb].
+  assert (Hown : c_dest (scfg pc) = DWell -> owners_ok_from 0 h = true).
+  { intro Hd. rewrite Hd in Hb. apply andb_true_iff in Hb. tauto. }
+  assert (Hcon : c_dest (scfg pc) = DWell -> consistent_from 0 None h = true).
+  { intro Hd. rewrite Hd in Hb. apply andb_true_iff in Hb. tauto. }
+  assert (Hi : CInv pc h x).
+  { apply (crun_inv pc h Hst Hown Hcon); [apply cinit_inv; assumption|exact Hl]. }
+  destruct Hi as (pre & B & Hu & S).
+  assert (Hpre : received x h = pre).
+  { unfold received. rewrite (b_split _ _ _ _ _ _ _ B), <- (b_len _ _ _ _ _ _ _ B), Nnat.Nat2N.id.
+    rewrite firstn_app, firstn_all, Nat.sub_diag. cbn [firstn]. apply app_nil_r. }
+  rewrite Hpre. unfold SInv, caught_up, cached, none_vals in *.
+  destruct (c_stage x) as [|c j fut| |].
+  - destruct S as (_ & Hnv & Hr). split; [intros _; exact Hnv|]. split; [contradiction|congruence].
+  - destruct S as (st & _ & _ & _ & _ & _ & _ & Hnv & Hr & _).
+    split; [intros _; exact Hnv|]. split; [contradiction|congruence].
+  - destruct S as (st & Eph & _ & _ & Hok & _ & _ & Hr & Hqk & Hv).
+    split; [congruence|]. split.
+    + rewrite Eph. intros Hc p. destruct (ssp st None) as [r st1] eqn:Essp. cbn [fst] in Hc. subst r.
+      destruct (ssp_spec _ _ _ _ _ Hok Essp) as (_ & _ & Hps & _). destruct Hps as (_ & Hp0 & _).
+      rewrite Hp0 in Hv. exact (Hv p).
+    + intros _. unfold spec_ready. rewrite Hqk. reflexivity.
+  - destruct S as (Hnv & Hr & _ & Hqk & Hv).
+    split; [intros _; exact Hnv|]. split; [|congruence].
+    intros _ p. unfold spec_cache. rewrite Hnv, Hv. reflexivity.
+Qed.
+
+(* a property marked uncached never has a cached value — under every schedule, for every history *)
+Theorem uncached_ignored : forall pc h sched p,
+  mem p (p_unc pc) = true -> cached (crun pc h sched) p = None.
+Proof.
+  intros pc h sched p Hp. unfold crun.
+  assert (G : forall l x, unc_none (p_unc pc) (k_val (c_cache x)) ->
+                unc_none (p_unc pc) (k_val (c_cache (fold_left (cstep pc) l x)))).
+  { induction l as [|a l IH]; intros x Hx; [exact Hx|]. cbn [fold_left]. apply IH.
+    destruct a as [| | |q]; cbn [cstep].
+    - unfold ctick. destruct (tick (scfg pc) (cw x)); [|exact Hx].
+      destruct (w_todo (cw x)) as [|[s|r0] r]; try exact Hx. destruct (c_stage x) as [|c j [qr|]| |]; exact Hx.
+    - unfold task_step. destruct (c_stage x) as [|c j fut| |]; try exact Hx.
+      + destruct (w_ph (cw x)); exact Hx.
+      + destruct (w_ph (cw x)); try exact Hx.
+        destruct (init_poll c j st fut) as [[[r j'] st'] fut'].
+        destruct r as [[m|q] t| | |]; try exact Hx. destruct q; try exact Hx. cbn [c_cache].
+        destruct j' as [|[m|q] t'| | | |]; try (apply update_cache_unc; exact Hx).
+        apply apply_msg_unc. apply update_cache_unc. exact Hx.
+      + destruct (w_ph (cw x)); try exact Hx. destruct (ssp st None) as [[m t| | |] st']; try exact Hx.
+        cbn [c_cache]. apply apply_msg_unc. exact Hx.
+    - unfold with_cache, STREAM_PROPS. cbn [c_cache fold_left]. rewrite !add_stream_val. exact Hx.
+    - unfold poll_stream. destruct (k_has (c_cache x) q && k_note (c_cache x) q); exact Hx. }
+  apply (G sched (init_cworld h)); [|exact Hp]. intros q _. reflexivity.
+Qed.
